@@ -1,5 +1,11 @@
+#[cfg(not(nexosim_verif))]
 use std::sync::atomic::{AtomicBool, Ordering};
+#[cfg(nexosim_verif)]
+use crate::verif::sync::atomic::{AtomicBool, Ordering};
+#[cfg(not(nexosim_verif))]
 use std::sync::Mutex;
+#[cfg(nexosim_verif)]
+use crate::verif::sync::Mutex;
 use std::{mem, vec};
 
 /// An unfair injector queue which stores batches of tasks in bounded-size
